@@ -47,7 +47,7 @@ RULE = (
     "corpus; exhaustive small scope: every interleaving pattern of <=4 events over <=2 streams x batch sizes "
     "{-1,0,1,2,3,5} (event and event_page forms, second same-name descriptor), every sequence of <=3 (thorough 4) "
     "stream datums drawn from adjacent/gapped/overlapping/out-of-order/empty ranges over <=2 stream resources x "
-    "batch sizes; then seeded random multi-stream runs with internal and external data (quick 250, thorough 4000); "
+    "batch sizes; then seeded random multi-stream runs with internal and external data (quick 250, thorough 3000); "
     "malformed stream: event before descriptor, stream datum for unknown resource / descriptor, descriptor or stop "
     "before start, second StreamResource with another dataset, undeclared data key, uid/name collisions, "
     "full-data-key collisions (finding a).  non-trivial = the run is accepted and contains >=2 events or >=2 stream datums")
@@ -310,37 +310,58 @@ def impl(case):
     return obs
 
 
+_TILED = {}
+
+
+def _tiled_client():
+    """One in-process Tiled server (catalog in a temp dir) per worker process; every case writes into its own
+    sub-container, so run uids may repeat between cases."""
+    if "client" not in _TILED:
+        import atexit
+        import tempfile
+        import warnings
+        from tiled.catalog import in_memory
+        from tiled.client import Context, from_context
+        from tiled.server.app import build_app
+        warnings.simplefilter("ignore")
+        tmp = tempfile.TemporaryDirectory()
+        catalog = in_memory(writable_storage={"filesystem": tmp.name, "sql": "duckdb:///%s/t.db" % tmp.name})
+        ctx = Context.from_app(build_app(catalog))
+        ctx.__enter__()
+        _TILED.update(tmp=tmp, ctx=ctx, client=from_context(ctx), n=0)
+
+        def close():
+            try:
+                ctx.__exit__(None, None, None)
+                tmp.cleanup()
+            except Exception:
+                pass
+        atexit.register(close)
+    _TILED["n"] += 1
+    return _TILED["client"].create_container(key="case-%d-%d" % (os.getpid(), _TILED["n"]))
+
+
 def run_real_tiled(specs, bs):
     """Thorough tier: the same documents into the in-process Tiled catalog; tables and metadata read back."""
-    import tempfile
-    import warnings
-    from tiled.catalog import in_memory
-    from tiled.client import Context, from_context
-    from tiled.server.app import build_app
     from bluesky.callbacks.tiled_writer import TiledWriter
-    with tempfile.TemporaryDirectory() as tmp, warnings.catch_warnings():
-        warnings.simplefilter("ignore")
-        catalog = in_memory(writable_storage={"filesystem": tmp, "sql": "duckdb:///%s/t.db" % tmp})
-        app = build_app(catalog)
-        with Context.from_app(app) as context:
-            client = from_context(context)
-            tw = TiledWriter(client, normalizer=None, batch_size=bs)
-            docs = build_docs(specs)
-            for name, doc in docs:
-                tw(name, doc)
-            uid = docs[0][1]["uid"]
-            run = client[uid]
-            out = {"start": _pairs(run.metadata["start"]), "stop": _pairs(run.metadata["stop"]), "streams": {}}
-            for name in sorted(run):
-                node = run[name].base if hasattr(run[name], "base") else run[name]
-                if "internal" in node:
-                    df = node["internal"].read()
-                    cols = list(df.columns)
-                    rows = []
-                    for rec in df.to_dict("records"):
-                        rows.append([[c, (rec[c] if isinstance(rec[c], str) else int(rec[c]))] for c in cols])
-                    out["streams"][name] = rows
-            return out
+    client = _tiled_client()
+    tw = TiledWriter(client, normalizer=None, batch_size=bs)
+    docs = build_docs(specs)
+    for name, doc in docs:
+        tw(name, doc)
+    uid = docs[0][1]["uid"]
+    run = client[uid]
+    out = {"start": _pairs(run.metadata["start"]), "stop": _pairs(run.metadata["stop"]), "streams": {}}
+    for name in sorted(run):
+        node = run[name].base if hasattr(run[name], "base") else run[name]
+        if "internal" in node:
+            df = node["internal"].read()
+            cols = list(df.columns)
+            rows = []
+            for rec in df.to_dict("records"):
+                rows.append([[c, (rec[c] if isinstance(rec[c], str) else int(rec[c]))] for c in cols])
+            out["streams"][name] = rows
+    return out
 
 
 # ----------------------------------------------------------------------------- Coq terms
@@ -850,7 +871,10 @@ def gen_internal(tier):
                     body = _paged(body)
                 for bs in BATCHES:
                     out.append({"bs": bs, "kind": "valid-int-" + variant, "docs": [_start()] + body + [_stop()],
-                                "tiled": tier == "thorough" and variant != "cfg" and bs in (0, 2, 5) and n >= 3})
+                                "tiled": False})
+    if tier == "thorough":
+        for i, c in enumerate(out):
+            c["tiled"] = (i % 5 == 0 and "cfg" not in c["kind"])
     return out
 
 
@@ -876,7 +900,7 @@ def gen_external(tier):
                 for i, (r, sr) in enumerate(zip(rs, asg)):
                     a, b = RANGES[r]
                     body.append(["sd", "sd%d" % i, sr, "dP", a, b, a + 1, b + 1])
-                bss = BATCHES if n <= 2 else ([0, 2, 3, 5] if tier == "quick" else BATCHES)
+                bss = BATCHES if n <= 2 or (tier == "thorough" and n == 3) else [0, 2, 3, 5]
                 for bs in bss:
                     out.append({"bs": bs, "kind": "valid-ext", "docs": [_start()] + body + [_stop()]})
     return out
@@ -884,7 +908,7 @@ def gen_external(tier):
 
 def gen_random(rng, tier):
     out = []
-    n = 250 if tier == "quick" else 4000
+    n = 250 if tier == "quick" else 3000
     for _ in range(n):
         bs = rng.choice(BATCHES + [2, 3, 4, 7, 10000])
         nstreams = rng.randint(1, 3)
@@ -936,7 +960,7 @@ def gen_random(rng, tier):
         if len(sd_idx) >= 2 and rng.random() < 0.3:
             i = rng.randrange(len(sd_idx) - 1)
             a, b = sd_idx[i], sd_idx[i + 1]
-            if body[a][2] == body[b][2]:
+            if body[a][2] == body[b][2] and body[a][3] == body[b][3]:
                 body[a], body[b] = body[b], body[a]
         if rng.random() < 0.3:
             body = _paged(body)
